@@ -381,6 +381,7 @@ func c07Run(ctx *core.Ctx) {
 func init() {
 	core.Register(&core.Check{
 		ID:    "C07",
+		Setup: func() { c07Env_() },
 		Level: "model_checking",
 		Rule: "case = (index shape, destination, expression tree, construction style Expr / raw list / Val-wrapped leaves, default or user context). All well-typed trees of depth <= 2 over 11 leaves (columns and constants of every type incl. nil), 19 unary and 14 binary function/type pairs, " +
 			"(thorough: depth 3 over a reduced alphabet), n-ary calls with 3-4 arguments, each with 4 destinations (new, source column, other columns); plus invalid trees obtained by single mutations (unknown function/column, wrong operand type at every argument position, zero arguments, non-string operator) and illegal destination names. " +
